@@ -348,6 +348,22 @@ fn fixed_shapes(rep: &mut Report, j: &Judge, static_mode: bool) {
     w.apply(&Step::Write { c: 0, id: "l.extra".into(), ext: "a".into(), content: "extra-2".into() }, rep, j);
     w.apply(&Step::Notify { c: 0, entries: vec![(false, "l.extra".into(), "a".into())], batched: false }, rep, j);
     w.apply(&Step::Pass { c: 0 }, rep, j);
+    // an entry that is known to the graph but that nobody reads any more: its notification
+    // concerns nobody, now and later
+    w.seed_file(0, "o.t1", "a", "t1-0");
+    w.seed_file(0, "o.t2", "a", "t2-0");
+    w.seed_file(0, "o.p", "n0", "file o.t1 a");
+    w.apply(&Step::Load { c: 0, ty: Ty::Node(0), id: "o.p".into() }, rep, j);
+    w.apply(&Step::Write { c: 0, id: "o.p".into(), ext: "n0".into(), content: "file o.t2 a".into() }, rep, j);
+    w.apply(&Step::Notify { c: 0, entries: vec![(false, "o.p".into(), "n0".into())], batched: false }, rep, j);
+    w.apply(&Step::Pass { c: 0 }, rep, j);
+    w.apply(&Step::Write { c: 0, id: "o.t1".into(), ext: "a".into(), content: "t1-1".into() }, rep, j);
+    w.apply(&Step::Notify { c: 0, entries: vec![(false, "o.t1".into(), "a".into())], batched: false }, rep, j);
+    w.apply(&Step::Pass { c: 0 }, rep, j);
+    w.apply(&Step::Load { c: 0, ty: LEAF_A, id: "o.t1".into() }, rep, j);
+    for _ in 0..2 {
+        w.apply(&Step::Pass { c: 0 }, rep, j);
+    }
     rep.count("fixed_shape_runs", 1);
     rep.count("passes", w.passes);
 }
